@@ -1104,6 +1104,12 @@ class FortranFile:
                         self.get_line(line_ind, pp_content), maintain_len=True
                     )
                     tmp_no_comm = tmp_line.split("!")[0]
+                    if tmp_no_comm.strip() == "":
+                        # Comment and blank lines may stand between a line and
+                        # its continuation: keep a placeholder and look further
+                        pre_lines.append("")
+                        line_ind -= 1
+                        continue
                     cont_ind = tmp_no_comm.rfind("&")
                     opt_cont_match = FRegex.FREE_CONT.match(tmp_no_comm)
                     if opt_cont_match:
@@ -1118,6 +1124,9 @@ class FortranFile:
                     else:
                         break
                     line_ind -= 1
+                # Comment lines before the first line of the statement are not part of it
+                while pre_lines and pre_lines[-1] == "":
+                    pre_lines.pop()
         # Search forward for trailing lines with continuations
         line_ind = line_no + 1
         post_lines = []
